@@ -203,7 +203,16 @@ func stalledRefilter(c *Ctx, i int) {
 			}
 			check(stage)
 		}
+		backlog := len(nd.sub.Events())
 		refilter(fam[3], "after a Refilter with 90 differences") // 10 deletes + 80 creates
+		// the stalled consumer loses only what does not fit: its buffer is now
+		// full (backlog + 90 differences is more than it holds), not left at the
+		// old backlog with the whole delta gone
+		if backlog+90 >= kcache.EventBufsiz {
+			if n := len(nd.sub.Events()); n != kcache.EventBufsiz {
+				problems = append(problems, fmt.Sprintf("a consumer with %d unread events and a Refilter delta of 90 holds %d events afterwards; its buffer has room for %d (it loses only what does not fit)", backlog, n, kcache.EventBufsiz))
+			}
+		}
 		srv.Set(1, 10, labSets[1], 1)
 		srv.Set(2, 10, labSets[2], 1)
 		t.ct.pert.Barrier()
